@@ -235,6 +235,9 @@ func NIA1(ik [16]byte, countI uint32, bearer byte, direction uint32, msg []byte,
 		tmp := make([]byte, 8)
 		copy(tmp, msg[8*(D-2):])
 		M := binary.BigEndian.Uint64(tmp)
+		if r := length % 64; r != 0 { // the last block is zero padded: bits beyond LENGTH do not count
+			M &= ^uint64(0) << (64 - r)
+		}
 		Eval = mul(Eval^M, P, 0x000000000000001b)
 	}
 
